@@ -725,6 +725,10 @@ exh:
 			{"drop-cert", "start", "restore-cert", "start", "stop"},
 			{"occupy-tls", "start", "stop", "free-tls", "start", "restart", "stop"},
 			{"start", "stop", "drop-cert", "start", "stop", "restore-cert", "start", "stop"},
+			{"start", "clients=40", "stop"},
+			{"start", "clients=75", "restart", "clients=33", "stop"},
+			{"tracer-fails-once", "start", "start", "stop"},
+			{"tracer-fails-once", "start", "stop", "start", "stop"},
 		}
 		for i, ops := range fixed {
 			if i%h.NShards != h.Shard {
@@ -738,7 +742,7 @@ exh:
 			var ops []string
 			for i, n := 0, rapid.IntRange(2, 9).Draw(rt, "nops"); i < n; i++ {
 				ops = append(ops, rapid.SampledFrom([]string{"start", "start", "stop", "restart", "restart", "setport0", "setport", "settlsport0", "settlsport", "config-port0", "config-tlsport0",
-					"occupy-tls", "free-tls", "drop-cert", "restore-cert"}).Draw(rt, "op"))
+					"occupy-tls", "free-tls", "drop-cert", "restore-cert", "tracer-fails-once", "clients=40", "clients=33"}).Draw(rt, "op"))
 			}
 			c := c15Cfg{Ops: ops}
 			h.Col.Case(true, []byte(fmt.Sprint("cfg", ops)), "reconfiguration-and-failed-start")
